@@ -530,3 +530,153 @@ def inline_lets(e, body):
         if n["k"] == "Local" and n["pat"]["k"] == "PIdent" and n["init"] is not None and not n["pat"].get("mut") and n.get("else") is None:
             env[n["pat"]["name"]] = n["init"]
     return _subst(e, env) if env else e
+
+
+# ---------------------------------------------------------------- expression form of a function body
+def simplify_body(body):
+    """A copy of a function body brought to *expression form* for the small abstract interpreters:
+      * immutable `let x = <pure expression>` is substituted into its scope and dropped (scoping and shadowing
+        respected; kept when a later statement may mutate a place the definition mentions),
+      * `match c { true => A, false => B }` (or `_` for the second arm) becomes `if c { A } else { B }`,
+      * `if c { return X; } REST` becomes `if c { X } else { REST }` (early returns folded into the value),
+      * a trailing `return X;` becomes the tail expression X, blocks with a single tail expression are unwrapped.
+    Behaviour-preserving clean-ups of such functions (naming a sub-expression, early return vs if/else, match on a
+    bool) all reach the same form."""
+    import copy
+
+    from pathcond import _mutated_names, _pure, _subst
+
+    def diverges_with_return(b):
+        """block consisting of `return X;` (possibly as tail) -> X, else None"""
+        if b.get("k") != "Block" or len(b["stmts"]) != 1:
+            return None
+        s = b["stmts"][0]
+        e = s["e"] if s["k"] == "ExprStmt" else None
+        if e is not None and e["k"] == "Return" and e.get("e") is not None:
+            return e["e"]
+        return None
+
+    def expr(e, env):
+        if isinstance(e, list):
+            return [expr(x, env) for x in e]
+        if not isinstance(e, dict):
+            return e
+        k = e.get("k")
+        if k == "Block":
+            return block(e, env)
+        if k == "Closure":
+            bound = {x["name"] for p in e.get("inputs", []) for x in walk(p) if x["k"] == "PIdent"}
+            env = {a: b for a, b in env.items() if a not in bound}
+        if k == "Path" and e["path"] in env:
+            return copy.deepcopy(env[e["path"]])
+        if k == "Match":
+            arms = e["arms"]
+            pats = [render(a["pat"]).strip() for a in arms]
+            if len(arms) == 2 and not arms[0].get("guard") and not arms[1].get("guard") and pats[0] in ("true", "false") and pats[1] in ("true", "false", "_") and pats[0] != pats[1]:
+                t, f = (arms[0], arms[1]) if pats[0] == "true" else (arms[1], arms[0])
+                mk = lambda x: x if x.get("k") == "Block" else {"k": "Block", "line": x.get("line", 0), "stmts": [{"k": "ExprStmt", "line": x.get("line", 0), "e": x, "semi": False}]}
+                return {"k": "If", "line": e.get("line", 0), "cond": expr(e["scrut"], env), "then": block(mk(t["body"]), env), "else": block(mk(f["body"]), env)}
+            out = dict(e)
+            out["scrut"] = expr(e["scrut"], env)
+            out["arms"] = []
+            for a in arms:
+                bound = {x["name"] for x in walk(a["pat"]) if x["k"] == "PIdent"}
+                env2 = {p: q for p, q in env.items() if p not in bound}
+                a2 = dict(a)
+                a2["guard"] = expr(a["guard"], env2) if a.get("guard") else a.get("guard")
+                a2["body"] = expr(a["body"], env2)
+                out["arms"].append(a2)
+            return out
+        if k == "Struct":
+            n = dict(e)
+            n["fields"] = []
+            for f in e["fields"]:
+                f2 = dict(f)
+                f2["e"] = expr(f["e"], env)
+                if f.get("shorthand") and f["name"] in env:
+                    f2["shorthand"] = False
+                n["fields"].append(f2)
+            if e.get("rest"):
+                n["rest"] = expr(e["rest"], env)
+            return n
+        return {a: expr(b, env) for a, b in e.items()}
+
+    def block(b, env):
+        env = dict(env)
+        stmts = list(b["stmts"])
+        out = []
+        i = 0
+        while i < len(stmts):
+            s = stmts[i]
+            rest = stmts[i + 1:]
+            if s["k"] == "Local":
+                init = expr(s["init"], env) if s.get("init") is not None else None
+                bound = {x["name"] for x in walk(s["pat"]) if x["k"] == "PIdent"}
+                if s["pat"]["k"] == "PIdent" and init is not None and not s["pat"].get("mut") and s.get("else") is None and _pure(init):
+                    free = {x["path"].split("::")[0] for x in walk(init) if x["k"] == "Path"}
+                    mutated = set()
+                    for r in rest:
+                        mutated |= _mutated_names(r)
+                    if not (free & mutated) and s["pat"]["name"] not in mutated:
+                        env[s["pat"]["name"]] = init
+                        i += 1
+                        continue
+                # `let (a, b) = (x, y);` element-wise
+                if s["pat"]["k"] == "PTuple" and init is not None and strip(init)["k"] == "Tuple" and len(strip(init)["elems"]) == len(s["pat"]["elems"]) and s.get("else") is None and all(x["k"] == "PIdent" and not x.get("mut") for x in s["pat"]["elems"]) and _pure(init):
+                    mutated = set()
+                    for r in rest:
+                        mutated |= _mutated_names(r)
+                    free = {x["path"].split("::")[0] for x in walk(init) if x["k"] == "Path"}
+                    if not (free & mutated) and not ({x["name"] for x in s["pat"]["elems"]} & mutated):
+                        for x, v_ in zip(s["pat"]["elems"], strip(init)["elems"]):
+                            env[x["name"]] = v_
+                        i += 1
+                        continue
+                for nm in bound:
+                    env.pop(nm, None)
+                s2 = dict(s)
+                s2["init"] = init
+                if s.get("else") is not None:
+                    s2["else"] = expr(s["else"], env)
+                out.append(s2)
+                i += 1
+                continue
+            if s["k"] == "ExprStmt":
+                e = s["e"]
+                # `if c { return X; }` followed by the rest of the block
+                if e["k"] == "If" and e.get("else") is None and rest:
+                    x = diverges_with_return(e["then"])
+                    if x is not None:
+                        then_b = {"k": "Block", "line": e.get("line", 0), "stmts": [{"k": "ExprStmt", "line": 0, "e": x, "semi": False}]}
+                        rest_b = {"k": "Block", "line": e.get("line", 0), "stmts": rest}
+                        folded = {"k": "If", "line": e.get("line", 0), "cond": expr(e["cond"], env), "then": block(then_b, env), "else": block(rest_b, env)}
+                        out.append({"k": "ExprStmt", "line": s.get("line", 0), "e": folded, "semi": False})
+                        i = len(stmts)
+                        continue
+                if e["k"] == "Return" and e.get("e") is not None and not rest:
+                    out.append({"k": "ExprStmt", "line": s.get("line", 0), "e": expr(e["e"], env), "semi": False})
+                    i += 1
+                    continue
+                s2 = dict(s)
+                s2["e"] = expr(e, env)
+                out.append(s2)
+                i += 1
+                continue
+            out.append(s)
+            i += 1
+        nb = dict(b)
+        nb["stmts"] = out
+        return nb
+
+    return block(copy.deepcopy(body), {})
+
+
+def struct_literal_fields(fn, struct_name):
+    """[{field: rendered expression}] for every literal of `struct_name` in the function, read on the expression form
+    of the body (lets inlined, shorthand expanded)"""
+    body = simplify_body(fn["body"])
+    out = []
+    for n in walk(body):
+        if n["k"] == "Struct" and last(n["path"]) in (struct_name, "Self"):
+            out.append({f["name"]: render(strip(f["e"])).replace(" ", "") for f in n["fields"]})
+    return out
